@@ -41,6 +41,13 @@ class SubReader(Abstract):
     def a_schema(self, I):
         return Opaque("schema")
 
+    def m_delete_document(self, I, d, delete=True):
+        # a segment asked to (un)mark one of its documents: recorded in the ghost trace (what it does with the request is
+        # W3Segment.delete_document's own contract)
+        from pyvc.theories.trace import trace_of
+        trace_of(I).append(("segment", "delete_document", (self.idx, to_z3(d), delete)))
+        return None
+
 
 class Readers(Abstract):
     """the list of sub-readers (symbolic length n >= 0)"""
